@@ -18,13 +18,21 @@ MAXCP = 0x10FFFF
 class CP:
     """A symbolic code point: z3 Int term + small id (for atom caching)."""
 
-    __slots__ = ("z", "id")
+    __slots__ = ("z", "id", "base", "off", "leaf")
     _n = 0
 
-    def __init__(self, z):
+    def __init__(self, z, base=None, off=0):
         self.z = z
         CP._n += 1
         self.id = CP._n
+        # derived code point = base (a CP) + constant offset: atoms on it are rewritten
+        # into atoms on the base, so that the interval pre-solver keeps deciding them
+        if base is not None and base.base is not None:
+            off += base.off
+            base = base.base
+        self.base = base
+        self.off = off
+        self.leaf = False  # set by new_str for declared input characters
 
 
 _ATOMS: dict = {}
@@ -32,8 +40,9 @@ _ATOMS: dict = {}
 
 def reset_atoms():
     _ATOMS.clear()
-    core.ATOM_META.clear()
+    core.ATOM_BY_EID.clear()
     core.CP_OF_Z.clear()
+    core.CP_ZVAR.clear()
     core._VARS_CACHE.clear()
 
 
@@ -49,6 +58,8 @@ def atom_eq(a, b):
         a, b = b, a
     # a is CP
     if isinstance(b, int):
+        if a.base is not None:
+            return atom_eq(a.base, b - a.off)
         k = (a.id, b)
     else:
         if a.id == b.id:
@@ -56,9 +67,11 @@ def atom_eq(a, b):
         k = (a.id, "v", b.id) if a.id < b.id else (b.id, "v", a.id)
     r = _ATOMS.get(k)
     if r is None:
-        r = _ATOMS[k] = mk_bool(zt(a) == zt(b))
-        if isinstance(b, int) and isinstance(r, SBool):
-            core.ATOM_META[r.e.get_id()] = (a.id, ((b, b),))
+        if isinstance(b, int) and a.leaf:
+            r = core.SAtom(a.id, ((b, b),), a.z)
+        else:
+            r = mk_bool(zt(a) == zt(b))
+        _ATOMS[k] = r
     return r
 
 
@@ -121,17 +134,21 @@ def cp_in_ivs(c, ivs, tag=None):
             if lo <= c <= hi:
                 return True
         return False
+    if c.base is not None:
+        off = c.off
+        return cp_in_ivs(c.base, tuple((lo - off, hi - off) for lo, hi in ivs), None if tag is None else (tag, off))
     k = (c.id, tag if tag is not None else ivs)
     r = _ATOMS.get(k)
     if r is None:
-        z = c.z
-        alts = [(z == lo) if lo == hi else z3.And(z >= lo, z <= hi) for lo, hi in ivs]
-        if not alts:
+        ivs = tuple(ivs)
+        if not ivs:
             r = False
+        elif c.leaf:
+            r = core.SAtom(c.id, ivs, c.z)
         else:
+            z = c.z
+            alts = [(z == lo) if lo == hi else z3.And(z >= lo, z <= hi) for lo, hi in ivs]
             r = mk_bool(z3.Or(*alts) if len(alts) > 1 else alts[0])
-            if isinstance(r, SBool):
-                core.ATOM_META[r.e.get_id()] = (c.id, tuple(ivs))
         _ATOMS[k] = r
     return r
 
@@ -169,9 +186,9 @@ def map_case(c, name):
     if not cp_in_ivs(c, table(name + "_changes"), name + "_changes"):
         return c
     if name == "lower" and cp_in_ivs(c, ((65, 90),)):
-        return CP(c.z + 32)
+        return CP(c.z + 32, c, 32)
     if name == "upper" and cp_in_ivs(c, ((97, 122),)):
-        return CP(c.z - 32)
+        return CP(c.z - 32, c, -32)
     groups, multi = _case_map(name)
     if cp_in_ivs(c, multi, name + "_multi"):
         raise Unsupported("multi-char case mapping of symbolic char")
@@ -181,7 +198,7 @@ def map_case(c, name):
         byoff.setdefault(off, []).append((lo, hi))
     for off, iv in byoff.items():
         if cp_in_ivs(c, tuple(iv), (name, off)):
-            return CP(c.z + off)
+            return CP(c.z + off, c, off)
     raise Unsupported("case mapping: no group matched")
 
 
@@ -980,7 +997,9 @@ def new_str(eng, name, n, alphabet=None, cls=None, ranges=None):
             ivs = ((0, 255),) if cls is SBytes else ((0, MAXCP),)
         alts = [(z == lo) if lo == hi else z3.And(z >= lo, z <= hi) for lo, hi in ivs]
         cp = CP(z)
+        cp.leaf = True
         core.CP_OF_Z[z.get_id()] = cp.id
+        core.CP_ZVAR[cp.id] = z
         eng.assume_base(z3.Or(*alts) if len(alts) > 1 else alts[0], unary_cp=cp.id, ivs=tuple(ivs))
         cps.append(cp)
     return cls(cps)
